@@ -93,6 +93,9 @@ pub fn execute(ctx: &mut Ctx, lines: &[String]) -> Vec<String> {
             ["CASE", ..] => header_answer(line),
             ["END"] => "END".into(),
             ["NOTE", "clk", s] => { stamp = s.parse().unwrap(); "ok".into() }
+            // zone and UTC switch are properties of the harness process (see main.rs)
+            ["NOTE", "tz", z] => { if std::env::var("TZ").as_deref() == Ok(*z) { "ok".into() } else { "bad-op zone of the process differs".into() } }
+            ["NOTE", "utc"] => { if std::env::var("FVH_FORCE_UTC").as_deref() == Ok("1") { "ok".into() } else { "bad-op process does not force UTC".into() } }
             ["NOTE", ..] => "ok".into(),
             ["REC", lvl, m, f, l, th, msg, kvs] => {
                 let o = |s: &str| if s == "_" { None } else { Some(unhexs(&s[1..]).unwrap()) };
@@ -175,6 +178,14 @@ pub fn execute(ctx: &mut Ctx, lines: &[String]) -> Vec<String> {
                 let wbytes = sink.lock().unwrap().clone();
                 let _ = std::fs::remove_dir_all(&dir);
                 nontrivial = true;
+                // oracle: one record, one time stamp — with the same format function the two outputs
+                // are the same text (up to the line ending), although the clock moved between them
+                if p1[0] == p2[0] {
+                    let strip = |b: &[u8]| { let b = b.strip_suffix(b"\n").unwrap_or(b); b.strip_suffix(b"\r").unwrap_or(b).to_vec() };
+                    if strip(&fbytes) != strip(&wbytes) {
+                        ctx.report.fail(&case_id, "outputs-differ", &format!("line {li}: the same record, format {}: file has {:?}, additional writer has {:?}", p1[0], String::from_utf8_lossy(&fbytes), String::from_utf8_lossy(&wbytes)));
+                    }
+                }
                 format!("{} {}", hex(&fbytes), hex(&wbytes))
             }
             _ => format!("bad-op {line}"),
@@ -184,6 +195,17 @@ pub fn execute(ctx: &mut Ctx, lines: &[String]) -> Vec<String> {
     if nontrivial { ctx.report.nontrivial_case(lines); }
     if ctx.report.samples.len() < 3 { ctx.report.samples.push(lines.join(" | ")); }
     out
+}
+
+/// the same text for a process in a fixed-offset zone (`offset` seconds east), with or without
+/// `DeferredNow::force_utc()`; computed without consulting the zone of the generating process
+pub fn ts_text_zone(stamp: u64, plus_secs: i64, offset: i32, utc: bool) -> String {
+    let k = stamp;
+    let naive = chrono::NaiveDate::from_ymd_opt((k / 10_000_000_000) as i32, (k / 100_000_000 % 100) as u32, (k / 1_000_000 % 100) as u32).unwrap()
+        .and_hms_opt((k / 10_000 % 100) as u32, (k / 100 % 100) as u32, (k % 100) as u32).unwrap() + chrono::Duration::seconds(plus_secs);
+    let (shown, off) = if utc { (naive - chrono::Duration::seconds(i64::from(offset)), 0) } else { (naive, offset) };
+    let sign = if off < 0 { '-' } else { '+' };
+    format!("{} {sign}{:02}:{:02}", shown.format("%Y-%m-%d %H:%M:%S%.6f"), off.abs() / 3600, off.abs() % 3600 / 60)
 }
 
 pub fn ts_text(stamp: u64, plus_secs: i64) -> String {
@@ -202,6 +224,13 @@ pub fn gen_c20(tier: &str, seed: u64) -> Vec<Vec<String>> {
         let mut c = vec![format!("CASE fmt C20 {k}")];
         let stamp = crate::props::flwgen::pack(1_700_000_000 + r.below(100_000_000) as i64);
         c.push(format!("NOTE clk {stamp}"));
+        // a third of the cases in a zone east or west of Greenwich; half of those with the time
+        // stamps forced to UTC (`Logger::use_utc` / `DeferredNow::force_utc`)
+        let zone: Option<(&str, i32)> = if r.chance(1, 3) { Some(*r.pick(&[("<+0530>-5:30", 19_800), ("<-0330>3:30", -12_600), ("<+0545>-5:45", 20_700), ("<+14>-14", 50_400), ("<-12>12", -43_200)])) } else { None };
+        let utc = zone.is_some() && r.chance(1, 2);
+        if let Some((z, _)) = zone { c.push(format!("NOTE tz {z}")); }
+        if utc { c.push("NOTE utc".into()); }
+        let ts_text = |stamp: u64, plus: i64| match zone { Some((_, off)) => ts_text_zone(stamp, plus, off, utc), None => ts_text(stamp, plus) };
         let o = |r: &mut Rng, tag: char| if r.chance(1, 3) { "_".to_string() } else { format!("{tag}{}", hexs(r.pick_s(&strs))) };
         let m = o(&mut r, 'm');
         let f = o(&mut r, 'f');
@@ -218,7 +247,9 @@ pub fn gen_c20(tier: &str, seed: u64) -> Vec<Vec<String>> {
         }
         if r.chance(1, 2) {
             let le = *r.pick(&["lf", "crlf"]);
-            c.push(format!("OUTS {}:{le}:{} {}:lf:{}", r.pick(&names), hexs(&ts), r.pick(&names), hexs(&ts_text(stamp, 1))));
+            let n1 = *r.pick(&names);
+            let n2 = if r.chance(1, 3) { n1 } else { *r.pick(&names) };
+            c.push(format!("OUTS {n1}:{le}:{} {n2}:lf:{}", hexs(&ts), hexs(&ts_text(stamp, 1))));
         }
         c.push("END".into());
         cases.push(c);
